@@ -304,6 +304,12 @@ def call_class(I, cls, args, kwargs):
         M = _m()
         ref = M.heap_new(I, cls)
         init = real_init(cls)
+        key = f"{cls.__module__}.{cls.__qualname__}.__init__"
+        c = I.reg.get(key)
+        if c is not None and not c.verify_only:
+            I.assumed_calls.add(key)
+            I.reg.apply_contract(I, c, init, [ref] + list(args), kwargs)
+            return ref
         if init is not None and init is not object.__init__:
             I.inlined.add(f"{cls.__module__}.{cls.__qualname__}.__init__")
             I.run_function(init, [ref] + list(args), kwargs)
@@ -462,6 +468,35 @@ def sym_method(I, recv, name, args, kwargs):
                 x = wrap(recv.ety, recv.at(simp(n - 1)))
                 recv.n = simp(n - 1)
                 return x
+            if name == "popleft" and not args:
+                name, args = "pop", [0]  # a deque modelled as a list
+            if name == "pop" and len(args) == 1 and concrete_of(to_z3(args[0])) == 0 and recv.mem is None:
+                n = to_z3(recv.n)
+                if not I.path.branch(n > 0, note="pop0-nonempty"):
+                    I.raise_py(IndexError, "pop from empty list")
+                x = wrap(recv.ety, recv.at(0))
+                recv.off = simp(to_z3(recv.off) + 1)
+                recv.n = simp(n - 1)
+                return x
+            if name == "remove" and len(args) == 1 and recv.mem is None:
+                # first occurrence: position i (fresh); elements before i differ from x; the rest shifts down
+                n, off = to_z3(recv.n), to_z3(recv.off)
+                xz = to_z3(args[0])
+                arr = recv.arr
+                found = I.path.fresh_bool("remove_found")
+                if not I.path.branch(found, note="list.remove-found"):
+                    I.path.qhyps.append(lambda t, arr=arr, n=n, off=off, xz=xz: z3.Implies(z3.And(t >= 0, t < n), z3.Select(arr, off + t) != xz))
+                    I.raise_py(ValueError, "list.remove(x): x not in list")
+                i = I.path.fresh_int("remove_at")
+                I.path.add_pool(i)
+                I.path.assume(z3.And(i >= 0, i < n, z3.Select(arr, off + i) == xz))
+                I.path.qhyps.append(lambda t, arr=arr, i=i, off=off, xz=xz: z3.Implies(z3.And(t >= 0, t < i), z3.Select(arr, off + t) != xz))
+                new = z3.Const(I.path.fresh_name("removed"), arr.sort())
+                I.path.qhyps.append(lambda t, arr=arr, new=new, i=i, n=n, off=off: z3.And(
+                    z3.Implies(z3.And(t >= 0, t < i), z3.Select(new, t) == z3.Select(arr, off + t)),
+                    z3.Implies(z3.And(t >= i, t < n - 1), z3.Select(new, t) == z3.Select(arr, off + t + 1))))
+                recv.arr, recv.off, recv.n = new, 0, simp(n - 1)
+                return None
             if name == "copy":
                 return SSeq(recv.arr, recv.n, recv.ety, "list", recv.off)
         raise Unsupported(f"{recv.kind}.{name} on a symbolic sequence")
@@ -839,9 +874,21 @@ def m_list(I, args, kwargs):
 def m_minmax(which):
     def f(I, args, kwargs):
         M = _m()
-        vals = list(args) if len(args) > 1 else M.concrete_items(I, args[0])
         if kwargs:
             raise Unsupported("min/max with key/default")
+        if len(args) == 1 and isinstance(args[0], SSeq) and concrete_of(to_z3(args[0].n)) is None and args[0].ety.kind == "int":
+            # extremum of a sequence of symbolic length: a bound of every element that is attained
+            seq = args[0]
+            n = to_z3(seq.n)
+            if not I.path.branch(n > 0, note=f"{which}-nonempty"):
+                I.raise_py(ValueError, f"{which}() arg is an empty sequence")
+            m = I.path.fresh_int(which)
+            k = I.path.fresh_int(which + "_at")
+            I.path.add_pool(k)
+            I.path.assume(z3.And(k >= 0, k < n, seq.at(k) == m))
+            I.path.qhyps.append(lambda t, seq=seq, n=n, m=m: z3.Implies(z3.And(t >= 0, t < n), (m <= seq.at(t)) if which == "min" else (m >= seq.at(t))))
+            return SInt(m)
+        vals = list(args) if len(args) > 1 else M.concrete_items(I, args[0])
         cur = vals[0]
         for v in vals[1:]:
             if isinstance(cur, (float, SReal)) or isinstance(v, (float, SReal)):
@@ -1105,8 +1152,23 @@ def m_time(I, args, kwargs):
 import time as _time
 import typing
 
+def m_str(I, args, kwargs):
+    """str(x): concrete values natively; text is itself; an object gives an unspecified string (its __str__ is not modelled)"""
+    if not args:
+        return ""
+    x = args[0]
+    if isinstance(x, SBytes) and x.kind == "str" and len(args) == 1:
+        return x
+    if isinstance(x, (SObj, SRef)) and len(args) == 1:
+        return SBytes(z3.Const(I.path.fresh_name("str_of_obj"), S.SeqI), "str")
+    if not _itp().has_sym(list(args)):
+        return str(*args, **kwargs)
+    raise Unsupported("str() of a symbolic value")
+
+
 BUILTIN_MODELS = {
     _time.time: m_time,
+    str: m_str,
     struct.pack: m_struct_pack,
     struct.unpack: m_struct_unpack,
     struct.calcsize: m_struct_calcsize,
@@ -1234,15 +1296,19 @@ def map_symbolic(I, e, g, it: SSeq, frame):
     arr = z3.Const(p.fresh_name("map_arr"), z3.ArraySort(S.IntS, S.sort_of(ety)))
     res = SSeq(arr, it.n, ety, "list", 0)
     snap_locals = dict(frame.locals)
+    heap_then = dict(I.path.heap)
 
     def q(t):
         fr = itp.Frame(frame.fn, {}, frame.globals, frame.info, parent=itp.Frame(frame.fn, snap_locals, frame.globals, frame.info, parent=frame.parent))
         I.assign(g.target, wrap(it.ety, it.at(t)), fr)
         sv = I.spec
         I.spec = 2
+        heap_now = I.path.heap
+        I.path.heap = dict(heap_then)
         try:
             r = I.eval(e.elt, fr)
         finally:
+            I.path.heap = heap_now
             I.spec = sv
         return z3.Implies(z3.And(t >= 0, t < to_z3(it.n)), z3.Select(arr, t) == to_z3(r))
 
@@ -1335,7 +1401,9 @@ def snapshot_value(v, memo):
         c = SObj.__new__(SObj)
         c.cls, c.oid, c.label, c.frozen = v.cls, v.oid, v.label, getattr(v, "frozen", False)
         c.fields = {}
-        c.heap_snapshot = memo.get("__heap__")
+        c.heap_snapshot = getattr(v, "heap_snapshot", None)
+        if c.heap_snapshot is None:
+            c.heap_snapshot = memo.get("__heap__")
         memo[id(v)] = c
         for k, x in v.fields.items():
             c.fields[k] = snapshot_value(x, memo)
@@ -1345,7 +1413,8 @@ def snapshot_value(v, memo):
     if isinstance(v, SSeq):
         return SSeq(v.arr, v.n, v.ety, v.kind, v.off, v.mem, v.lpos)
     if isinstance(v, SMap):
-        return SMap(v.has, v.val, v.kty, v.vty, v.size, v.keys, v.kpos, v.heap if v.heap is not None else memo.get("__heap__"))
+        return SMap(v.has, v.val, v.kty, v.vty, v.size, v.keys, v.kpos, v.heap if v.heap is not None else memo.get("__heap__"),
+                    v.lim if v.lim is not None else memo.get("__limit__"))
     if isinstance(v, SBytesIO):
         return SBytesIO(v.buf, v.pos)
     if isinstance(v, SRef):
@@ -1422,18 +1491,21 @@ def as_lazy_forall(I, conj, frame):
     snap = snapshot_locals(frame)
     base = itp.Frame(frame.fn, snap, frame.globals, frame.info)
     heap_then = dict(I.path.heap)  # the clause speaks about the heap as it is *now*, not when it is instantiated
+    nalloc_then = I.path.nalloc
 
     def q(t, t2=None):
         sv, st, sd = I.spec, getattr(I, "inst_term", None), getattr(I, "inst_depth", 0)
         I.spec = -1
         I.inst_term = t if t2 is None else (t, t2)
         I.inst_depth = 0
-        heap_now = I.path.heap
+        heap_now, nalloc_now = I.path.heap, I.path.nalloc
         I.path.heap = dict(heap_then)
+        I.path.nalloc = nalloc_then
         try:
             return I.as_bool_expr(I.eval(conj, base))
         finally:
             I.path.heap = heap_now
+            I.path.nalloc = nalloc_now
             I.spec = sv
             I.inst_term = st
             I.inst_depth = sd
@@ -1488,7 +1560,10 @@ def spec_call(I, e, frame):
         skolem = (which == "all" and pol == 1) or (which == "any" and pol == -1)
         if skolem:
             k = I.path.fresh_int(var)
-            I.path.add_pool(k)
+            if getattr(I, "inst_term", None) is None:
+                # (a skolem born inside an instance of a lazy hypothesis is not an instantiation term itself:
+                # forall-exists hypotheses would otherwise feed themselves without end)
+                I.path.add_pool(k)
             fr = itp.Frame(frame.fn, {var: qwrap(k)}, frame.globals, frame.info, parent=frame)
             guard = dom(k) + [I.as_bool_expr(I.eval(c, fr)) for c in ifs]
             body = I.as_bool_expr(I.eval(elt, fr))
